@@ -1,14 +1,14 @@
 #!/bin/bash
-# Offline setup: build helper tools and warm the Go build cache for every harness.
-set -e
+# Offline setup: build helper tools and warm the Go build cache for every harness
+# (plain and, where a check has a race pass, -race).
 cd "$(dirname "$0")"
 export GOFLAGS=-mod=mod GOPROXY=off GOSUMDB=off GOTOOLCHAIN=local
-./tools/prep.sh
-mkdir -p tools/bin
-if [ -d tools/mkoverlay ]; then (cd tools/mkoverlay && go1.26 build -o ../bin/mkoverlay .); fi
-cd harness
-for d in c[0-9][0-9]; do
-  [ -d "$d" ] || continue
-  go1.26 test -c -vet=off -o /dev/null "./$d" >/dev/null 2>&1 || echo "warn: $d did not prebuild"
+mkdir -p tools/bin evidence replays
+(cd tools/mkoverlay && go1.26 build -o ../bin/mkoverlay .) || { echo "mkoverlay build failed"; exit 1; }
+rc=0
+for d in harness/c[0-9][0-9]; do
+  id=$(basename "$d" | tr a-z A-Z)
+  VERIF_BUILD_ONLY=1 ./vcheck "$id" quick || { echo "warn: $id did not prebuild"; rc=1; }
 done
 echo setup done
+exit $rc
